@@ -136,7 +136,9 @@ def check(run: Run) -> None:
     fcls = finders[0]
     extra = sorted(n for n in fcls.methods if n.startswith("visit"))
     run.check(not extra, "C16.R3", fcls.methods["generic_visit"], fcls.node, "the finder overrides generic_visit only: every node kind goes through the metadata test", f"the finder also defines {extra}: nodes of that kind never reach generic_visit, so _q_metadata attached to them is invisible to the lookup (e.g. QMetaData right after MetaData)", "no visit_<Kind> methods")
-    gv = fcls.methods["generic_visit"]
+    from ..lib import view as _view_g
+
+    gv = _view_g(m, fcls.methods["generic_visit"], hoist_tests=True)  # the metadata test may be a private helper that answers found / not found
     fg = ctx.analysis(gv)
     gnode = ("param", gv.pos_params[1])
     gself = ("param", gv.pos_params[0])
